@@ -68,6 +68,16 @@ class Cr:
         return 1 - ca * ca - cb * cb - cg * cg + 2 * ca * cb * cg
     def zs(self):
         return list(dict.fromkeys(a[0] for a in self.atoms))
+    def dsp(self, h, k, l):
+        """d-spacing from the reciprocal metric tensor of the cell (written from the textbook formula, not from the library)"""
+        a, b, c = self.cell[:3]
+        ca, cb, cg = (math.cos(x * DEGRAD) for x in self.cell[3:6])
+        sa, sb, sg = (math.sin(x * DEGRAD) for x in self.cell[3:6])
+        det = self.detc()
+        if not (det > 0) or min(a, b, c) <= 0: return None
+        s = (h * h * sa * sa / (a * a) + k * k * sb * sb / (b * b) + l * l * sg * sg / (c * c)
+             + 2 * h * k * (ca * cb - cg) / (a * b) + 2 * k * l * (cb * cg - ca) / (b * c) + 2 * h * l * (cg * ca - cb) / (a * c)) / det
+        return 1 / math.sqrt(s) if s > 0 else None
 
 def parse_crystal_line(l, builtin=False, family='replay'):
     t = l.split(' ')
@@ -421,6 +431,14 @@ def gen_cases(R, crystals):
             d0 = None
             for E in energies(r, 8 if th else 3) + [0.0, -1.0]:
                 out.append(('bragg', L('bragg', c.id, E, h[0], h[1], h[2], r.choice('EEN'))))
+            # both sides of the backscattering energy hc/(2 d): just below it no reflection exists and the call must fail
+            d0 = c.dsp(*h) if h != (0, 0, 0) else None
+            if d0 and math.isfinite(d0):
+                Eb = KEV2ANGST / (2 * d0)
+                for dl in ((1e-3, 1e-5, 3e-7, 1e-8) if th else (1e-5, 3e-7, 1e-8)):
+                    out.append(('bragg-cutoff', L('bragg', c.id, Eb * (1 - dl), h[0], h[1], h[2], 'E')))
+                    out.append(('bragg-cutoff', L('bragg', c.id, Eb * (1 + dl), h[0], h[1], h[2], 'E')))
+                out.append(('q-cutoff', L('q', c.id, Eb * (1 - 3e-7), h[0], h[1], h[2], 1.0, 'E')))
             rel = r.choice([1.0, 1.0, 0.5, 0.0, 1.7, -1.0, 100.0, r.uniform(0, 2)])
             out.append(('q', L('q', c.id, r.choice(energies(r, 2)), h[0], h[1], h[2], rel, r.choice('EEN'))))
     out += [('bragg', L('bragg', 'N', 8.0, 1, 1, 1, 'E')), ('bragg', L('bragg', 'N', -8.0, 1, 1, 1, 'E')), ('q', L('q', 'N', 8.0, 0, 0, 0, 1.0, 'E')),
